@@ -111,7 +111,7 @@ Section Inv.
   Definition hand (p : spc) : list item :=
     match p with
     | SGot i => if is_exit i then [] else [i]
-    | SLog i | SLock i | SWrite i => [i]
+    | SChk i | SLog i | SLock i | SWrite i => [i]
     | _ => []
     end.
 
